@@ -501,6 +501,10 @@ class CNF(SimpleSequence[Clause]):
     def assert_k_of_n(self, k: int, in_list: Sequence[Var]):
         # TODO DOC
         # TODO: Describe this function's purpose.
+        if in_list and k > len(in_list):
+            # No assignment makes more variables true than there are: unsatisfiable.
+            self.prepend(CNF([Clause(in_list[0]), Clause(~in_list[0])]))
+            return
         in_binary =  int_to_binary(k)
         sum_bits = self.pop_count(in_list, len(in_binary)+1)
         # Add zero padding to the left.
@@ -522,6 +526,13 @@ class CNF(SimpleSequence[Clause]):
         self._inequality_assertion(False, k, in_list)
 
     def _inequality_assertion(self, assert_less_than: bool, k: int, in_list: Sequence[Var]):
+        if in_list and assert_less_than and k > len(in_list):
+            # Every assignment has fewer than k true variables: nothing to assert.
+            return
+        if in_list and not assert_less_than and k >= len(in_list):
+            # No assignment has more than k true variables: unsatisfiable.
+            self.prepend(CNF([Clause(in_list[0]), Clause(~in_list[0])]))
+            return
         in_binary = int_to_binary(k)
         sum_bits = self.pop_count(in_list, len(in_binary)+1)
         k_vars = self.get_n_fresh(len(in_binary))
